@@ -84,6 +84,7 @@ fn check_inv(port: &RPort<'_>) {
 // @tier quick
 // @variant lists2
 // @timeout 1500
+// @mem 8
 // @stubbing yes
 // @replay playback
 // @functions Port::handle_peer_delay_response, Port::handle_time_measurement, Port::extract_measurement, Port::set_forced_port_state, Duration / f64 (2.0)
@@ -162,6 +163,7 @@ fn c14_pdelay_resp() {
 // @tier quick
 // @variant lists2
 // @timeout 1500
+// @mem 8
 // @stubbing yes
 // @replay playback
 // @functions Port::handle_peer_delay_response_follow_up, Port::handle_time_measurement, Port::extract_measurement, Port::set_forced_port_state
@@ -233,6 +235,7 @@ fn c14_pdelay_resp_follow_up() {
 // @tier quick
 // @variant lists2
 // @timeout 1500
+// @mem 8
 // @stubbing yes
 // @replay playback
 // @functions Port::handle_send_timestamp, Port::handle_pdelay_timestamp, Port::extract_measurement
